@@ -1107,4 +1107,99 @@ theorem doUseToken_calls (c : Ctx) (now : Int) (c' : Ctx) (h : doUseToken c now 
         · exact ⟨[], by rw [passNow_calls _ now c' h]; simp, fun x hx => by cases hx⟩
   · cases h
 
+/-! ### The polls that stay silent although `Late`: exact results -/
+
+theorem nextGap_of_waiting (s : Station) (cur : Nat)
+    (hn : nextGapPoll s.p.address s.ring.ns s.p.hsa cur = .waiting) : nextGap s cur = some (.waiting 0) := by
+  unfold nextGap; rw [hn]
+
+/-- `ClaimToken(Scan)` with the sweep finished: the poll only moves to `PassToken(no gap, first)`. -/
+theorem claim_scan_done (c : Ctx) (now l : Int) (fuel : Nat) (hs : Sil c l) (hsy : l + (c.s.p.bits 33 : Nat) < now)
+    (hst : c.s.st = .claimToken .scan) (r : Nat) (hg : c.s.gap = .waiting r) :
+    doClaimToken c now (fuel + 1) = .ok { c with s := { c.s with st := .passToken false .first } } := by
+  unfold doClaimToken
+  simp only [hst]
+  rw [waitSync_some _ _ _ hs.last]
+  simp only
+  rw [if_neg (by simp only [decide_eq_true_eq]; omega)]
+  simp only [hg, tr, toPassToken, hst]
+
+/-- `ClaimToken(Scan)` at the last GAP address: the poll only finishes the sweep. -/
+theorem claim_scan_last (c : Ctx) (now l : Int) (fuel : Nat) (hs : Sil c l) (hsy : l + (c.s.p.bits 33 : Nat) < now)
+    (hst : c.s.st = .claimToken .scan) (cur : Nat) (hg : c.s.gap = .doPoll cur)
+    (hn : nextGapPoll c.s.p.address c.s.ring.ns c.s.p.hsa cur = .waiting) :
+    doClaimToken c now (fuel + 1) = .ok { c with s := { c.s with gap := .waiting 0 } } := by
+  unfold doClaimToken
+  simp only [hst]
+  rw [waitSync_some _ _ _ hs.last]
+  simp only
+  rw [if_neg (by simp only [decide_eq_true_eq]; omega)]
+  simp only [hg, nextGap_of_waiting c.s cur hn, upd, transmitGapPoll]
+  rw [hst]
+
+/-- `ClaimToken(ScanAwait a)` at the last GAP address after the slot time: no reply, sweep finished. -/
+theorem claim_await_last (c : Ctx) (now l : Int) (hs : Sil c l) (hsy : l + (c.s.p.bits 33 : Nat) < now)
+    (hsl : l + (c.s.p.slotTime : Nat) < now)
+    (a : Nat) (hst : c.s.st = .claimToken (.scanAwait a)) (hg : c.s.gap = .doPoll a) (hne : a ≠ c.s.p.address)
+    (hn : nextGapPoll c.s.p.address c.s.ring.ns c.s.p.hsa a = .waiting) :
+    doClaimToken c now 2 = .ok { c with s := { c.s with st := .claimToken .scan, gap := .waiting 0 } } := by
+  have hag : awaitGapPollResponse c now a = (.ok c, .noResponse) := by
+    unfold awaitGapPollResponse
+    rw [if_neg hne, if_neg (by rw [hg]; simp), hs.rx, receiveTelegram_nil]
+    simp only
+    rw [checkSlot_some _ _ _ hs.last]
+    simp only [decide_eq_true_eq]
+    rw [if_pos (by omega)]
+    have hrx := hs.rx
+    cases c; simp only at hrx; subst hrx; rfl
+  have h1 := claim_scan_last (upd c fun s => { s with st := .claimToken .scan }) now l 0
+    (sil_setSt hs _) hsy rfl a hg hn
+  unfold doClaimToken
+  simp only [hst, hag]
+  rw [h1]
+  rfl
+
+/-- Every `Late` poll of a station with bound 1 transmits; with a larger bound it does not. -/
+theorem late_noTx_of_bound (c : Ctx) (now l : Int) (hs : Sil c l) (hinv : Inv c.s c.apps) (hlate : Late c.s.p l now)
+    (hb : 2 ≤ pollsToTx c.s) (c' : Ctx) (h : pollInner c now false = .ok c') : c'.tx = none := by
+  have hsy : l + (c.s.p.bits 33 : Nat) < now := by have := hlate.sync; omega
+  have hsl : l + (c.s.p.slotTime : Nat) < now := by have := hlate.slot; omega
+  have hno : c.s.st ≠ .offline := by
+    intro h0; simp [pollsToTx, h0] at hb
+  rw [pollInner_dispatch c now l hs hinv hno hlate.after] at h
+  unfold dispatch at h
+  unfold pollsToTx at hb
+  cases hst : c.s.st with
+  | claimToken step =>
+    rw [hst] at h hb
+    simp only at h
+    cases step with
+    | firstToken => simp at hb
+    | secondToken => simp at hb
+    | scan =>
+      simp only at hb
+      cases hg : c.s.gap with
+      | waiting r =>
+        rw [claim_scan_done c now l 1 hs hsy hst r hg] at h
+        cases h; exact hs.tx
+      | doPoll cur =>
+        rw [hg] at hb
+        simp only at hb
+        split at hb
+        · rename_i hn
+          rw [claim_scan_last c now l 1 hs hsy hst cur hg hn] at h
+          cases h; exact hs.tx
+        · omega
+    | scanAwait a =>
+      obtain ⟨hg, hne⟩ := hinv.await2 a hst
+      rw [hg] at hb
+      simp only at hb
+      split at hb
+      · rename_i hn
+        rw [claim_await_last c now l hs hsy hsl a hst hg hne hn] at h
+        cases h; exact hs.tx
+      · omega
+  | offline | passiveIdle | listenToken _ _ | activeIdle _ _ _ | useToken _ _ | awaitData _ _ | passToken _ _
+  | checkTokenPass _ | awaitStatus _ => rw [hst] at hb; simp at hb
+
 end PV
